@@ -125,6 +125,18 @@ MonotoneV(v) == \A k \in 1..Len(v) : v[k] >= Vat(v, k - 1)
 StrictV(v) == \A k \in 1..Len(v) : v[k] > Vat(v, k - 1)
 MonoSign(v, k) == IF v[k] > Vat(v, k - 1) THEN 1 ELSE IF v[k] = Vat(v, k - 1) THEN 0 ELSE 0 - 1
 
+\* C06, summary rows.  lower = loc_k + q(alpha) s_k with alpha = (1 - level) / tails and q the quantile function of
+\* the standard t (odd around 1/2, increasing), so  lower <= estimate (= loc_k, the median)  <=>  alpha <= 1/2.
+\* That holds for every level in (0,1) when tails = 2, and exactly for level >= 1/2 when tails = 1 (with equality,
+\* i.e. lower = estimate up to rounding, at level = 1/2).  The replayer's finding class "tails = 1 and level <= 1/2"
+\* is the complement (plus the boundary).  Levels are rationals <<num, den>>.
+LevelGrid == {<<1, 4>>, <<2, 5>>, <<1, 2>>, <<4, 5>>, <<9, 10>>, <<99, 100>>}
+TailAlpha(level, tails) == Rat(level[2] - level[1], level[2] * tails)
+LowerAtOrBelowMedian(level, tails) == RatLe(TailAlpha(level, tails), <<1, 2>>)
+ASSUME SummaryOrderingFacts ==
+  \A lv \in LevelGrid : /\ LowerAtOrBelowMedian(lv, 2)
+                        /\ (LowerAtOrBelowMedian(lv, 1) <=> RatLe(<<1, 2>>, lv))
+
 Hash == HashF(x \o y, 1, 7 + (shape % 10000))
 RawV == LET S == cS
             K == cK
